@@ -204,6 +204,10 @@ class LinAlg:
     # ------------------------------------------------------------------ construction
     def make(self, qual, vals, st_conds=(), node=None):
         cls = self.M.cls(qual)
+        # Compose([...]) / Add([...]) written out explicitly over known operator values are the algebra's own nodes
+        if qual in ("sigpy.linop.Compose", "sigpy.linop.Add") and isinstance(vals.get("linops"), tuple) and vals["linops"] \
+                and all(isinstance(x, LV) for x in vals["linops"]):
+            return self.compose(list(vals["linops"])) if qual.endswith("Compose") else self.add(list(vals["linops"]))
         init = self.M.method(cls, "__init__")
         if init is None:
             raise AnchorMissing(qual + ".__init__")
